@@ -13,14 +13,14 @@ Section Fut.
 Variable A : Type.
 Variable leA : A -> A -> bool.                       (* the order of sorted(future_predicates) on (name, arity, sign) *)
 Inductive fsgn := FPos | FNeg | FNegNeg.
-Inductive fbatom := FAt (a : A) (lead trail : nat) | FInit (a : A) | FKwI | FKwF.
-Inductive fhead := FNorm (a : A) (trail : nat) | FDisj (l : list A) | FChoice (l : list A) | FCons.
+Inductive fbatom := FAt (a : A) (lead trail : nat) | FInit (a : A) | FKwI | FKwF | FTel.          (* FTel: a &tel / &del atom (its formula is not looked at here) *)
+Inductive fhead := FNorm (a : A) (trail : nat) | FDisj (l : list A) | FChoice (l : list A) | FCons | FTelHead.        (* FTelHead: the head is one &tel atom *)
 Inductive fpart := FInitial | FAlways | FDynamic | FFinal.
 Record frule := { fp : fpart; fh : fhead; fb : list (fsgn * fbatom) }.
 (* rewritten rules *)
 Inductive qterm := QRel (z : Z) | QZero.             (* __t + z  |  0 *)
-Inductive qatom := QU (a : A) (tm : qterm) | QFut (a : A) (n : nat) (tm : qterm) | QI | QF | QFU.      (* p(tm) | __future_p(n,tm) | __initial(__t) | __final(__t) | __final(__u) *)
-Inductive qhead := QHAtom (p : qatom) | QHDisj (l : list A) | QHChoice (l : list A) | QHCons.
+Inductive qatom := QU (a : A) (tm : qterm) | QFut (a : A) (n : nat) (tm : qterm) | QI | QF | QFU | QTel.      (* &tel(__t) {..}; p(tm) | __future_p(n,tm) | __initial(__t) | __final(__t) | __final(__u) *)
+Inductive qhead := QHAtom (p : qatom) | QHDisj (l : list A) | QHChoice (l : list A) | QHCons | QHAux (k : nat).       (* __aux_k(__t): stands for the k-th head formula *)
 Record qrule := { qh : qhead; qb : list (fsgn * qatom) }.
 Inductive oroot := ORInitial | ORAlways | ORDynamic.
 Inductive okind := KMain | KTmp (L : nat) | KPerm (L : nat).       (* part `root`, `root_0_{L-1}`, `root_L` *)
@@ -31,6 +31,7 @@ Definition shape_of (h : fhead) : shape :=
   match h with
   | FNorm _ _ => {| is_rule := true; head_is_literal := true; atom_is_boolconst := false; atom_is_symbolic := true; value := false; nosign := true |}
   | FCons => {| is_rule := true; head_is_literal := true; atom_is_boolconst := true; atom_is_symbolic := false; value := false; nosign := true |}
+  | FTelHead => {| is_rule := true; head_is_literal := true; atom_is_boolconst := false; atom_is_symbolic := false; value := false; nosign := true |}
   | _ => {| is_rule := true; head_is_literal := false; atom_is_boolconst := false; atom_is_symbolic := false; value := false; nosign := true |}
   end.
 Definition tr_time (ts : Z) (tz : bool) : qterm := if tz then QZero else QRel ts.
@@ -51,6 +52,11 @@ Definition tr_blit (sh : shape) (l : fsgn * fbatom) : option ((fsgn * qatom) * n
       end
   | FKwI => Some ((s, QI), 0)
   | FKwF => Some ((s, QF), 0)
+  | FTel =>      (* visit_TheoryAtom: accepted behind default negation or in a constraint (regenerated test), the term gets the time parameter *)
+      match is_constraint_gen (is_rule sh) (head_is_literal sh) (atom_is_boolconst sh) (atom_is_symbolic sh) (value sh) (nosign sh) with
+      | Some c => match tel_ctx_reject_gen (negb (is_pos s)) c with Some false => Some ((s, QTel), 0) | _ => None end
+      | None => None
+      end
   end.
 Fixpoint tr_body (sh : shape) (l : list (fsgn * fbatom)) : option (list (fsgn * qatom) * nat) :=
   match l with
@@ -69,6 +75,7 @@ Definition tr_head (h : fhead) : option (qhead * list (A * nat)) :=
   | FDisj l => if plain_elem sh then Some (QHDisj l, []) else None
   | FChoice l => if plain_elem sh then Some (QHChoice l, []) else None
   | FCons => Some (QHCons, [])
+  | FTelHead => Some (QHAux 0, [])                      (* the number is given by the running counter (step below) *)
   end.
 Record tres := { t_rule : qrule; t_shift : nat; t_fut : list (A * nat) }.
 Definition transform_rule (r : frule) : option tres :=
@@ -93,17 +100,21 @@ Fixpoint add_cons (key : oroot * nat) (v : qrule * qrule) (l : list ((oroot * na
   | (k, vs) :: r => if eq_root (fst k) (fst key) && (snd k =? snd key) then (k, (vs ++ [v])%list) :: r else (k, vs) :: add_cons key v r
   end.
 Record output := { o_main : list (oroot * qrule); o_bridge : list (A * nat); o_cons : list ((oroot * nat) * list (qrule * qrule));
-                   o_parts : list (oroot * okind * list nat) }.
-Definition empty : output := {| o_main := []; o_bridge := []; o_cons := []; o_parts := [] |}.
+                   o_parts : list (oroot * okind * list nat); o_naux : nat }.             (* o_naux: head formulas seen so far (HeadTransformer.__num_aux) *)
+Definition empty : output := {| o_main := []; o_bridge := []; o_cons := []; o_parts := []; o_naux := 0 |}.
+Definition number_head (k : nat) (r : qrule) : qrule := match qh r with QHAux _ => {| qh := QHAux k; qb := qb r |} | _ => r end.
+Definition is_tel_head (h : fhead) : bool := match h with FTelHead => true | _ => false end.
 Definition step (acc : option output) (r : frule) : option output :=
   match acc, transform_rule r with
   | Some o, Some t =>
       let fut := fold_left (fun l x => insert_fut x l) (t_fut t) (o_bridge o) in
+      let rl := number_head (o_naux o) (t_rule t) in
+      let na := if is_tel_head (fh r) then S (o_naux o) else o_naux o in
       match lookahead_part_gen (Z.of_nat (t_shift t)) (is_final (fp r)) with
       | Some true =>
-          let tmp := {| qh := qh (t_rule t); qb := (qb (t_rule t) ++ [(FPos, QFU)])%list |} in
-          Some {| o_main := o_main o; o_bridge := fut; o_cons := add_cons (root_of (fp r), t_shift t) (tmp, t_rule t) (o_cons o); o_parts := [] |}
-      | Some false => Some {| o_main := (o_main o ++ [(root_of (fp r), t_rule t)])%list; o_bridge := fut; o_cons := o_cons o; o_parts := [] |}
+          let tmp := {| qh := qh rl; qb := (qb rl ++ [(FPos, QFU)])%list |} in
+          Some {| o_main := o_main o; o_bridge := fut; o_cons := add_cons (root_of (fp r), t_shift t) (tmp, rl) (o_cons o); o_parts := []; o_naux := na |}
+      | Some false => Some {| o_main := (o_main o ++ [(root_of (fp r), rl)])%list; o_bridge := fut; o_cons := o_cons o; o_parts := []; o_naux := na |}
       | None => None
       end
   | _, _ => None
@@ -113,7 +124,7 @@ Definition parts_of (cons : list ((oroot * nat) * list (qrule * qrule))) : list 
    ++ [(ORAlways, KMain, [0]); (ORDynamic, KMain, [0]); (ORInitial, KMain, [0])])%list.
 Definition transform_program (P : list frule) : option output :=
   match fold_left step P (Some empty) with
-  | Some o => Some {| o_main := o_main o; o_bridge := o_bridge o; o_cons := o_cons o; o_parts := parts_of (o_cons o) |}
+  | Some o => Some {| o_main := o_main o; o_bridge := o_bridge o; o_cons := o_cons o; o_parts := parts_of (o_cons o); o_naux := o_naux o |}
   | None => None
   end.
 End Fut.
